@@ -35,6 +35,10 @@ def run(chk):
     for k, (max_atoms, steps, count) in enumerate(plans):
         lines = chk.gen("bdd", chk.seed * 1000 + k, count, max_atoms, steps)
         stats_all.append(vcheck.corr_pass(chk, "bdd", lines, f"bdd-ops(atoms<={max_atoms},steps<={steps})", nontrivial=nontrivial))
+    # the type-vector layer: SemTypeOps on scalar types (per-tag merge + literal-set subtypes) vs the port the C06Sem theorems are about
+    for k, (steps, count) in enumerate([(12, 2500)] if quick else [(8, 40000), (16, 40000), (30, 20000)]):
+        lines = chk.gen("semops", chk.seed * 1000 + 500 + k, count, steps)
+        stats_all.append(vcheck.corr_pass(chk, "semops", lines, f"sem-ops(steps<={steps})", nontrivial=lambda r, i: "only" in i or "except" in i))
     if not pok:
         # a proof obligation no longer checks: the search above ran on the implementation; report
         found = any(not s.endswith("no-failing-input-found") for _, s in chk.violations)
@@ -46,7 +50,7 @@ def run(chk):
         "corr_distinct_nontrivial": sum(s["nontrivial"] for s in stats_all),
         "corr_mismatches": sum(s["mismatch"] for s in stats_all),
         "corr_oracle_failures": sum(s["oracle_fail"] for s in stats_all),
-        "corr_rule": "random op scripts over the real BddOps/bdd_to_dnf/dnf_to_bdd from up to N atoms; every intermediate result is compared as a COMPLETE truth table (all 2^n assignments) between the Rust diagram and the Lean model; independently the Rust result's table is compared with the Boolean combination of the operands' own tables (property oracle, no model involved). non-trivial = script whose final table is neither all-0 nor all-1; distinct = distinct request text",
+        "corr_rule": "random op scripts over the real BddOps/bdd_to_dnf/dnf_to_bdd from up to N atoms; every intermediate result is compared as a COMPLETE truth table (all 2^n assignments) between the Rust diagram and the Lean model; independently the Rust result's table is compared with the Boolean combination of the operands' own tables (property oracle, no model involved). non-trivial = script whose final table is neither all-0 nor all-1; distinct = distinct request text. Type-vector layer: random scripts of intersect / union / diff / complement over the real SemTypeOps from 2-7 scalar atoms (string, number, boolean, null, undefined, unknown, never, the absent-property tag, string / number / boolean literals): every intermediate vector is printed canonically (per tag: none / all / only{…} / except{…}) and compared with the Lean port (Model/SemType.lean, the subject of Props/C06Sem); oracle: membership of 14 sample values in every result equals the Boolean combination of the operands' memberships, and the vector stays sorted by tag",
         "evaluations": ev,
         "distinct_nontrivial": sum(s["nontrivial"] for s in stats_all),
     })
@@ -59,6 +63,6 @@ def replay(chk, path):
     chk.build_rust()
     chk.build_lean(MODULES)
     lines = [l for l in open(path).read().split("\n") if l.strip() and not l.startswith(";")]
-    st = vcheck.corr_pass(chk, "bdd", lines, "bdd-ops(replay)")
+    st = vcheck.corr_pass(chk, "semops" if lines and lines[0].startswith("(sem-ops") else "bdd", lines, "ops(replay)")
     print(st)
     return chk.finish("proof", {"evaluations": len(lines), "distinct_nontrivial": st["nontrivial"]})
